@@ -199,7 +199,8 @@ def run_property(pid, tier, seed):
     for kind, e, r in results:
         if kind == 'verus' and r.gen is not None:
             # any item pulled in by the dependency closure means the code was restructured since the contracts were written
-            nc = [a['item'] + ('' if a['autospec'] else ' (no contract)') for a in r.gen.auto_items]
+            # (constants, types and statics are definitional - only pulled-in *functions* can hide behaviour behind a missing contract)
+            nc = [a['item'] + ('' if a['autospec'] else ' (no contract)') for a in r.gen.auto_items if a.get('is_fn', True)]
             if nc:
                 needs_contract[e['unit']] = nc
     for o in native_obs:
